@@ -198,6 +198,46 @@ fn xfs() -> Vec<Xf> {
     vec![IDENT, [0.8660254, 0.5, -0.5, 0.8660254, 4., -3.], [1., 0., 0., 1., 0.5, 0.25], [1.5, 0., 0., 0.75, -2., 2.], [1., 0., 0.5, 1., -2., 0.], [-1., 0., 0., 1., 12., 0.], [0., 1., -1., 0., 12., 0.]]
 }
 
+/// C02's clause for curved fills with a reference that is not the library's own fill: every pixel
+/// farther than the margin from the true (f64) outline and outside it by the winding rule keeps its
+/// value, whatever the mode and the destination. `scene` = [set_transform?, fill(path, src, opts)].
+pub fn curved_fill_leaves_the_outside_alone(scene: &Scene) -> Result<(u64, u64), Violation> {
+    let case = format!("curved | {}", scene);
+    let mut xf = IDENT;
+    let mut fill = None;
+    for op in &scene.ops {
+        match op {
+            Op::SetTransform(t) => xf = *t,
+            Op::Fill(p, _, o) => fill = Some((p.clone(), *o)),
+            _ => {}
+        }
+    }
+    let (path, o) = fill.ok_or_else(|| Violation::new("harness/no-fill", case.clone(), String::new()))?;
+    let got = super::common::render(scene).map_err(|p| Violation::new("fill/panic", case.clone(), p))?;
+    let before = scene.dst.pixels(scene.w, scene.h);
+    let (polys, extra) = outline(&path, &xf);
+    let margin = 1.0 + std::f64::consts::FRAC_1_SQRT_2 + 2e-3 + extra;
+    let mut asserted = 0u64;
+    for y in 0..scene.h {
+        for x in 0..scene.w {
+            let ctr = (x as f64 + 0.5, y as f64 + 0.5);
+            if dist_outline(ctr, &polys) <= margin {
+                continue;
+            }
+            let wn = winding_polylines(ctr, &polys);
+            if if path.evenodd { wn & 1 != 0 } else { wn != 0 } {
+                continue;
+            }
+            asserted += 1;
+            let i = (y * scene.w + x) as usize;
+            if got[i] != before[i] {
+                return Err(Violation::new("curved/outside-changed/fill-outside-the-true-outline", case, format!("pixel ({},{}) lies outside the true outline by more than {:.3} px but changed {:#010x} -> {:#010x}; mode {:?}, aa {}", x, y, margin, before[i], got[i], o.mode, o.aa)));
+            }
+        }
+    }
+    Ok((hash64(&got), asserted))
+}
+
 fn account(run: &Run, shard: usize, l: &mut Local, c: &Case, sample: bool) {
     l.states += 1;
     l.transitions += scene_of(c).ops.len() as u64;
@@ -410,6 +450,29 @@ impl Check for C08 {
             for eo in [false, true] {
                 for clip in [false, true] {
                     account(run, 36_000 + s, l, &Case { w: 12, path: PathSpec { evenodd: eo, ops: ops.clone() }, xf: IDENT, clip, pre: false }, false);
+                }
+            }
+        });
+        // curves lying entirely beside the surface that belong to a shape reaching onto it (they carry
+        // the winding of the rows they span)
+        run.bound("curves beside the surface", "shapes whose curved side (cubic, quad, arc) lies wholly left of, right of, above or below the 12x12 surface while the rest reaches onto it x 2 rules x fill/clip x 2 transforms".to_string());
+        run.par(12, |s, l| {
+            let side = s % 4;
+            let kind = s / 4;
+            // the shape in a frame where the curve bulges to the left of x = 0
+            let curve = match kind {
+                0 => POp::C(-9.0, 3.5, -9.0, 8.5, -2.0, 10.5),
+                1 => POp::Q(-12.0, 6.0, -2.0, 10.5),
+                _ => POp::C(-4.0, 1.5, -30.0, 6.0, -2.0, 10.5),
+            };
+            let ops = vec![POp::M(7.0, 1.5), POp::L(-2.0, 1.5), curve, POp::L(7.0, 10.5), POp::Z];
+            // rotate the frame by quarter turns about the centre of the surface
+            let xf: Xf = [[1., 0., 0., 1., 0., 0.], [0., 1., -1., 0., 12., 0.], [-1., 0., 0., -1., 12., 12.], [0., -1., 1., 0., 0., 12.]][side];
+            for eo in [false, true] {
+                for clip in [false, true] {
+                    account(run, 37_000 + s, l, &Case { w: 12, path: PathSpec { evenodd: eo, ops: ops.clone() }, xf, clip, pre: false }, false);
+                    let xs: Xf = [xf[0] * 0.5, xf[1] * 0.5, xf[2] * 0.5, xf[3] * 0.5, xf[4] * 0.5 + 3.0, xf[5] * 0.5 + 3.0];
+                    account(run, 37_000 + s, l, &Case { w: 12, path: PathSpec { evenodd: eo, ops: ops.iter().map(|o| match *o { POp::M(x, y) => POp::M(2.0 * x - 6.0, 2.0 * y - 6.0), POp::L(x, y) => POp::L(2.0 * x - 6.0, 2.0 * y - 6.0), POp::Q(a, b, c, d) => POp::Q(2.0 * a - 6.0, 2.0 * b - 6.0, 2.0 * c - 6.0, 2.0 * d - 6.0), POp::C(a, b, c, d, e, f) => POp::C(2.0 * a - 6.0, 2.0 * b - 6.0, 2.0 * c - 6.0, 2.0 * d - 6.0, 2.0 * e - 6.0, 2.0 * f - 6.0), o => o }).collect() }, xf: xs, clip, pre: false }, false);
                 }
             }
         });
